@@ -93,6 +93,13 @@ def fd_facts(fd, depth, engine, context):
                  type=type_facts(p.value_type))
         if not d['type']['hidden'] and not d['type']['lazy']:
             d['accepts'] = accepts(p.value_type, engine, context)
+        # does call(name, args, kwargs) let this keyword spelling through?
+        try:
+            from yaql.language import utils as _u
+            kept = _u.filter_parameters_dict({p.alias or p.name: 1})
+            d['call_keeps_keyword'] = (p.alias or p.name) in kept
+        except Exception as e:     # noqa
+            d['call_keeps_keyword'] = 'raised %s' % type(e).__name__
         params.append(d)
     return dict(name=fd.name, depth=depth, is_function=fd.is_function,
                 is_method=fd.is_method, no_kwargs=fd.no_kwargs,
